@@ -57,9 +57,12 @@ type proc struct {
 
 var procSeq int64
 
-func startProc(scratch string) (*proc, error) {
+func startProc(scratch string, maxStack int) (*proc, error) {
 	cmd := exec.Command(os.Args[0])
 	cmd.Env = append(os.Environ(), workerEnvVar+"=1", "GOMAXPROCS=2", "GOTRACEBACK=single")
+	if maxStack > 0 {
+		cmd.Env = append(cmd.Env, fmt.Sprintf("%s=%d", maxStackEnvVar, maxStack))
+	}
 	progress := ""
 	if scratch != "" {
 		progress = fmt.Sprintf("%s/progress-%d", scratch, atomic.AddInt64(&procSeq, 1))
@@ -241,6 +244,7 @@ type pool struct {
 	abandon  int32 // set when the current space is given up after mass failures of confirmed classes
 	known    []string
 	sampled  map[string]bool
+	obs      map[string]string
 
 	mu        sync.Mutex
 	classSeen map[string]int
@@ -259,7 +263,7 @@ type spaceStat struct {
 
 func newPool(r *core.Run) *pool {
 	return &pool{r: r, thorough: r.Thorough(), n: r.Workers, classSeen: map[string]int{}, repeats: map[string]int64{},
-		stats: map[string]*spaceStat{}, known: knownClasses(), sampled: map[string]bool{}}
+		stats: map[string]*spaceStat{}, known: knownClasses(), sampled: map[string]bool{}, obs: map[string]string{}}
 }
 
 // knownClasses reads the class globs of the recorded C03 findings.  They are
@@ -291,8 +295,9 @@ func (pl *pool) isKnown(class string) bool {
 }
 
 type wslot struct {
-	pl *pool
-	p  *proc
+	pl    *pool
+	p     *proc
+	stack int // goroutine stack ceiling of this slot's workers (0 = Go's default)
 }
 
 func (w *wslot) ensure() error {
@@ -313,7 +318,7 @@ func (w *wslot) ensure() error {
 		if attempt > 0 {
 			time.Sleep(time.Duration(attempt) * 2 * time.Second)
 		}
-		p, err := startProc(w.pl.scratch)
+		p, err := startProc(w.pl.scratch, w.stack)
 		if err != nil {
 			lastErr = err
 			continue
@@ -384,6 +389,13 @@ func (pl *pool) absorb(sp *space, rp *reply) {
 	}
 	for _, f := range rp.Flaky {
 		r.Flaky(f)
+	}
+	if len(rp.Obs) > 0 {
+		pl.mu.Lock()
+		for k, v := range rp.Obs {
+			pl.obs[sp.Name+" "+k] = v
+		}
+		pl.mu.Unlock()
 	}
 	pl.mu.Lock()
 	st := pl.stats[sp.Name]
@@ -520,7 +532,7 @@ func (pl *pool) confirm(w *wslot, sp *space, aux string, idx int64, first *failu
 			wg.Add(1)
 			go func(i int) {
 				defer wg.Done()
-				ws := &wslot{pl: pl}
+				ws := &wslot{pl: pl, stack: sp.Stack}
 				defer ws.restart()
 				runOne(i, ws)
 			}(i)
@@ -566,7 +578,7 @@ func (pl *pool) runSpace(sp *space, aux string) {
 		wg.Add(1)
 		go func() {
 			defer wg.Done()
-			w := &wslot{pl: pl}
+			w := &wslot{pl: pl, stack: sp.Stack}
 			defer w.restart()
 			for {
 				lo := atomic.AddInt64(&next, sp.Batch) - sp.Batch
@@ -605,7 +617,7 @@ func (pl *pool) runSpace(sp *space, aux string) {
 
 // runCase runs one literal case in a fresh worker (used by replay).
 func runCaseIsolated(k kase) (reply, *failure) {
-	p, err := startProc("")
+	p, err := startProc("", k.Stack)
 	if err != nil {
 		return reply{Err: err.Error()}, nil
 	}
